@@ -1,0 +1,21 @@
+//go:build verif
+
+package parse
+
+// VerifToken is a lexer token as sent on the lexer's channel.
+type VerifToken struct {
+	Type  int // 0 error, 1 prefix, 2 dollar, 3 comma, 4 value, 5 EOF
+	Pos   int
+	Value string
+}
+
+// VerifLex runs the lexer goroutine on input and returns every token it sends
+// until its channel is closed.
+func VerifLex(input string) []VerifToken {
+	l := lex(input)
+	var out []VerifToken
+	for t := range l.tokens {
+		out = append(out, VerifToken{Type: int(t.Type), Pos: int(t.Pos), Value: t.Value})
+	}
+	return out
+}
